@@ -688,10 +688,39 @@ class FunctionVerifier:
         else:
             raise VCError(f"assignment target not supported at {self.where(tgt)}")
 
+    def narrow_for_field(self, obj, attr, ctx, node):
+        """The static class of obj does not declare `attr` but some of its subclasses do (e.g. is_macro of the
+        pending declaration): split on the dynamic class.  In code an object of another class has no such
+        attribute: AttributeError on a read; a write would silently create the attribute, which is outside the subset."""
+        cname = obj.ty[1]
+        if cname not in self.prog.classes:
+            return None
+        groups = {}
+        for c in self.prog.subclasses(cname):
+            d = self.world.declared_field(c, attr)
+            if d is not None and self.world.is_concrete(c):
+                groups.setdefault(d[0], []).append(c)
+        if not groups:
+            return None
+        glist = sorted(groups.items())
+        if ctx.spec:
+            raise VCError(f"attribute {attr} on {cname} in a spec: use cast(...) at {self.where(node)}")
+        for decl, cs in glist:
+            cond = z3.Or(*[typeof(obj.t) == self.world.class_id(c) for c in cs])
+            if self.choose(cond):
+                return mk_ref(obj.t, decl if len(cs) > 1 else cs[0])
+        raise RaiseSig("AttributeError", self.where(node))
+
     def store_field(self, obj, attr, val, node):
         if obj.kind() != "ref":
             raise VCError(f"attribute store on {obj.ty} at {self.where(node)}")
         cname = obj.ty[1]
+        if cname in self.prog.classes and not self.world.has_field(cname, attr, self.cur_class()) and \
+                self.prog.find_setter(cname, attr) is None:
+            narrowed = self.narrow_for_field(obj, attr, Ctx(self.env, self.heap), node)
+            if narrowed is not None:
+                obj = narrowed
+                cname = obj.ty[1]
         setter = self.prog.find_setter(cname, attr) if cname in self.prog.classes else None
         if setter is not None and not (self.func is setter):
             self.call_function(setter, [obj, val], {}, node, key_suffix=".setter")
@@ -1492,6 +1521,11 @@ class FunctionVerifier:
             ext = self.world.external_attr(cname, e.attr)
             if ext is not None:
                 return V("callable", ("method", obj, e.attr))
+            if e.attr == "__dict__" and cname in self.prog.classes:
+                return V("callable", ("dict_of", obj))
+            narrowed = self.narrow_for_field(obj, e.attr, ctx, e)
+            if narrowed is not None:
+                return self.load_field(narrowed, e.attr, ctx.heap, e)
             raise VCError(f"unknown attribute {cname}.{e.attr} at {self.where(e)}")
         if k == "class":
             ci = self.prog.classes[obj.t]
